@@ -385,7 +385,7 @@ func genUnpack(r *rand.Rand, thorough bool, emit func(c, cat string)) {
 		emit(hexs(b), "valid")
 		for j := 0; j < 6; j++ {
 			mb := append([]byte(nil), b...)
-			switch r.Intn(7) {
+			switch r.Intn(8) {
 			case 0: // truncate
 				mb = mb[:r.Intn(len(mb)+1)]
 				emit(hexs(mb), "truncated")
@@ -412,7 +412,16 @@ func genUnpack(r *rand.Rand, thorough bool, emit func(c, cat string)) {
 					mb[12+r.Intn(len(mb)-12)] = []byte{0x40, 0x80, 0x3F, 0x7F, 0xBF, 0xFF, 0xC0}[r.Intn(7)]
 				}
 				emit(hexs(mb), "lenbyte")
-			case 5: // append garbage / trailing data
+			case 5: // header octets that look like pointers + a name pointing into the header
+				if len(mb) > 14 {
+					mb[0], mb[1] = 0xC0, byte(2*r.Intn(6))
+					if r.Intn(2) == 0 {
+						mb[2], mb[3] = 0xC0, byte(2*r.Intn(6))
+					}
+					mb[12], mb[13] = 0xC0, byte(r.Intn(12))
+				}
+				emit(hexs(mb), "hdrptr")
+			case 7: // append garbage / trailing data
 				mb = append(mb, byte(r.Intn(256)), byte(r.Intn(256)))
 				emit(hexs(mb), "trailing")
 			default: // random bytes
@@ -444,6 +453,14 @@ func adversarial() [][]byte {
 	out = append(out, append(hdr(1, 0), 0xC0, 0xFF, 0, 1, 0, 1))
 	out = append(out, append(hdr(1, 0), 0xFF, 0xFF, 0, 1, 0, 1))
 	out = append(out, append(hdr(1, 0), 0xC0))
+	// pointer loops staged in the header (in front of the name being decoded): ID / flag octets that are
+	// themselves pointers, and a QNAME pointing at them
+	out = append(out, []byte{0xC0, 0x00, 1, 0, 0, 1, 0, 0, 0, 0, 0, 0, 0xC0, 0x00, 0, 1, 0, 1})
+	out = append(out, []byte{0xC0, 0x02, 0xC0, 0x00, 0, 1, 0, 0, 0, 0, 0, 0, 0xC0, 0x00, 0, 1, 0, 1})
+	out = append(out, []byte{0xC0, 0x02, 0xC0, 0x02, 0, 1, 0, 0, 0, 0, 0, 0, 0xC0, 0x00, 0, 1, 0, 1})
+	// a loop behind a first backward jump inside the question section: name2 -> name1 region -> itself
+	out = append(out, append(hdr(2, 0), 0xC0, 12, 0, 1, 0, 1, 0xC0, 12, 0, 1, 0, 1))
+	out = append(out, append(hdr(2, 0), 1, 'a', 0xC0, 14, 0, 1, 0, 1, 0xC0, 14, 0, 1, 0, 1))
 	// chains of exactly 10 and 11 hops
 	for _, hops := range []int{9, 10, 11, 12} {
 		b := hdr(1, 0)
